@@ -412,9 +412,10 @@ class AssignedFeatureCounter(AbstractCounter):
         normalization = NormalizationMethod[normalization_str]
         total_counts = defaultdict(float)
         with open(self.output_counts_file_name) as f:
-            for line in f:
+            for line_index, line in enumerate(f):
                 if self.is_stat_line(line): break
-                if line.startswith('#'): continue
+                # the header is the first line; feature ids may start with '#' as well
+                if line_index == 0 and line.startswith('#'): continue
                 fs = line.rstrip().split('\t')
                 if self.ignore_read_groups:
                     total_counts[AbstractReadGrouper.default_group_id] += float(fs[1])
@@ -435,9 +436,9 @@ class AssignedFeatureCounter(AbstractCounter):
 
         with open(self.output_tpm_file_name, "w") as outf:
             with open(self.output_counts_file_name) as f:
-                for line in f:
+                for line_index, line in enumerate(f):
                     if self.is_stat_line(line): break
-                    if line.startswith('#'):
+                    if line_index == 0 and line.startswith('#'):
                         outf.write(line.replace("count", "TPM"))
                         continue
                     fs = line.rstrip().split('\t')
